@@ -247,7 +247,20 @@ func (g *gen) text() int {
 		return g.lastText
 	}
 	if g.chance(18) { // one response key selected several times under variable-driven @include/@skip (sched.go)
-		g.lastText = mergeFirst + g.pick(len(catalogue)-mergeFirst)
+		g.lastText = mergeFirst + g.pick(mergeEnd-mergeFirst)
+		return g.lastText
+	}
+	if g.chance(16) { // introspection requests and requests that depend on what the schema declares (intro.go)
+		g.lastText = introFirst + g.pick(introEnd-introFirst)
+		switch x := g.pick(100); {
+		case x < 35:
+			g.lastText = nullFirst + g.pick(introEnd-nullFirst)
+		case x < 65: // a new walk over the introspection meta-schema
+			t, _ := randomIntroText(g)
+			texts[t] = true
+			catalogue = append(catalogue, qtext{t, []string{"I"}, nil})
+			g.lastText = len(catalogue) - 1
+		}
 		return g.lastText
 	}
 	if g.chance(70) {
@@ -363,6 +376,9 @@ func (g *gen) varsMember() fj {
 		return fj{kind: 'o', kv: varSets[g.lastVars]}
 	default:
 		g.lastVars = g.pick(len(varSets))
+		if g.lastText >= introFirst && g.chance(70) {
+			g.lastVars = introVarFirst + g.pick(len(varSets)-introVarFirst)
+		}
 		return fj{kind: 'o', kv: varSets[g.lastVars]}
 	}
 }
